@@ -7,6 +7,8 @@
                                   spancount are used ONLY as the environment's answer when the model
                                   needs a new span (e_span / e_count)
      Z                            rpmalloc_finalize happened: restart from the empty heap
+     SX | SM n base mc | SF n | ST start from to | SU start | SD   span-layer machine (ProofsSpans.v): reset, map, carve from
+                                  the reserve, status change, unmap, dump state; a refused operation prints REFUSED
      Q kind a b c                 point queries: regime/class/large_span_count/... (see below)
    Output per O line:  "P op span_hex off usable inplace"  or  "E op <error>"; after a free "P op 0 0 0 0". *)
 open Model
@@ -22,6 +24,16 @@ let err_name = function
   | CErrUnmodelled -> "ErrUnmodelled" | CNull -> "Null" | COk _ -> "ok"
 
 let regime_name = function Small -> "small" | Medium -> "medium" | Large -> "large" | Huge -> "huge"
+
+(* ---- span layer (coq/C19/ProofsSpans.v) ---- *)
+let sstate = ref sempty
+let st_of = function "U" -> InUse | "C" -> Cached | "R" -> Reserved | s -> failwith ("status " ^ s)
+let st_name = function InUse -> "U" | Cached -> "C" | Reserved -> "R"
+let span_apply line r = match r with Some s -> sstate := s | None -> Printf.printf "REFUSED %s\n" line
+let span_dump () =
+  let rs = List.sort compare (List.map (fun g -> Printf.sprintf "R %s %d %d" (hex_of_z g.rg_base) (int_of_z g.rg_total) (int_of_z g.rg_remaining)) !sstate.regions) in
+  let os = List.sort compare (List.map (fun o -> Printf.sprintf "O %s %d %s %s" (hex_of_z o.so_start) (int_of_z o.so_count) (hex_of_z o.so_master) (st_name o.so_status)) !sstate.objs) in
+  print_string ("D " ^ String.concat ";" (rs @ os)); print_newline ()
 
 let () =
   iter_lines (fun line ->
@@ -62,6 +74,12 @@ let () =
       let bs = match class_of s with Some c -> int_of_z (class_bs c) | None -> 0 in
       Printf.printf "Q size %s %s %d %d %s %s\n" v (regime_name (regime_of s)) cls bs
         (hex_of_z (large_span_count s)) (hex_of_z (huge_pages !psh s))
+    | [ "SX" ] -> sstate := sempty
+    | [ "SM"; n; base; mc ] -> span_apply line (op_map (z_of_int (int_of_string mc)) !sstate (z_of_int (int_of_string n)) (z_of_hex base))
+    | [ "SF"; n ] -> span_apply line (op_from_reserve !sstate (z_of_int (int_of_string n)))
+    | [ "ST"; s; a; b ] -> span_apply line (op_set_status !sstate (z_of_hex s) (st_of a) (st_of b))
+    | [ "SU"; s ] -> span_apply line (op_unmap !sstate (z_of_hex s))
+    | [ "SD" ] -> span_dump ()
     | [ "Q"; "huge"; v ] ->
       (match huge_request !psh (z_of_hex v) with
        | None -> Printf.printf "Q huge %s refused\n" v
